@@ -21,7 +21,9 @@ VAL = {
     'n1': 'Display Name', 'd1': 'All the big ones', 'd2': 'Another description',
 }
 VIEW_VAL = {'m1': 'total > 10', 'm2': 'category == "Food" and months >= 2', 'm3': 'cv < 0.5'}
-BADEXPR = {'match': ['contains("A"', 'amount >', 'lambda: 1', 'import os'], 'let': ['z = amount >', 'z = (1'], 'field': ['q = (', 'q = 1 +'],
+BADEXPR = {'match': ['contains("A"', 'amount >', 'lambda: 1', 'import os'], 'let': ['z = amount >', 'z = (1', 'a = amount >', 'c = (1', 'b = a +'],
+           # (a name may be bound more than once in a rule: a malformed binding is malformed whatever is bound to its name later)
+           'field': ['q = (', 'q = 1 +', 'note = (', 'memo = 1 +'],
            'tags': ['keep, {amount >}', '{contains(}'], 'filter': ['total >', 'months >= (', 'lambda: 1']}
 MALFORMED = {'let': ['no equals here', '= 5', '1x = 5'], 'field': ['nofield', '= 1'], 'priority': ['high', '5.5', '']}
 
